@@ -528,8 +528,56 @@ def run(ctx: Any, prog: Program) -> None:
                 ctx.check('C12.W5', False, dw, n, 'DeferredWrites must only write/seek on the file it was constructed with', func=f'DeferredWrites.{name}')
     ctx.check('C12.W5', True, dw, dw.cls('DeferredWrites'), 'DeferredWrites only touches self.file', func='DeferredWrites', text='DeferredWrites target')
 
+    # ---- W9: the writer removes nothing but its own temp file -------------------------------------------------------------------
+    # "the previous contents remain" and "concurrent writers to different files in one directory never clobber each other": every
+    # destructive file-system call of the class operates on the temp path (the final replace() moves it onto the destination, W1).
+    ctx.rule('C12.W9', 'every removing/renaming call of AtomicWriter operates on its own temp file', floor=3)
+    DESTRUCTIVE = {'unlink', 'rmtree', 'rmdir', 'remove', 'removedirs', 'rename', 'renames', 'replace', 'move', 'truncate', 'write_bytes', 'write_text', 'copyfile', 'copy', 'copy2'}
+    for name, fn in aw.items():
+        handles = {t.id for a in walk_no_nested(fn) if isinstance(a, ast.Assign) and any(dotted(e) == 'self.temp' for e in ([a.value] + (list(a.value.elts) if isinstance(a.value, ast.Tuple) else [])))
+                   for tt in a.targets for t in ([tt] + (list(tt.elts) if isinstance(tt, ast.Tuple) else [])) if isinstance(t, ast.Name)}
+        def _own(e: ast.AST) -> bool:
+            if is_temp_path(e, fn):
+                return True
+            # Path(self.temp.name): the name the open handle was created under
+            if isinstance(e, ast.Call) and dotted(e.func) in ('Path', '_os.fspath', 'str') and len(e.args) == 1:
+                a0 = e.args[0]
+                return _own(a0) or (isinstance(a0, ast.Attribute) and a0.attr == 'name' and (dotted(a0.value) == 'self.temp' or (isinstance(a0.value, ast.Name) and a0.value.id in handles)))
+            return False
+        for n in walk_no_nested(fn):
+            if not (isinstance(n, ast.Call) and isinstance(n.func, ast.Attribute) and n.func.attr in DESTRUCTIVE):
+                continue
+            recv = n.func.value
+            modform = isinstance(recv, ast.Name) and recv.id.lstrip('_') in ('os', 'shutil') or dotted(recv) in ('os.path', '_os.path')
+            obj = (n.args[0] if n.args else None) if modform else recv
+            if not modform and isinstance(recv, ast.Constant):
+                continue
+            ctx.check('C12.W9', obj is not None and _own(obj), core, n, f'AtomicWriter.{name} calls `{U(n)[:70]}`: it removes or overwrites `{U(obj)[:40] if obj is not None else "?"}`, which is not the writer\'s own temp file - '
+                      'other files (another writer\'s temp file, the previous contents of a folder) are destroyed by a failed or abandoned write', func=f'AtomicWriter.{name}', text=f'{name}: {n.func.attr} on the temp file')
+    # ---- W10: the temp file exists only inside the with block -------------------------------------------------------------------
+    # __exit__ is the only cleanup.  A temp file created by calling make_tempfile() directly is removed by nobody when something raises
+    # before the `with` is entered ("no temporary file is left behind by a handled failure").
+    ctx.rule('C12.W10', 'make_tempfile() is called by AtomicWriter.__enter__ only: the temp file exists only while __exit__ is pending', floor=1)
+    n_mk = 0
+    for mn in prog.module_names():
+        m_ = prog.module(mn)
+        for n in ast.walk(m_.tree):
+            if isinstance(n, ast.Call) and isinstance(n.func, ast.Attribute) and n.func.attr == 'make_tempfile':
+                encl = None
+                for a_ in _anc12(m_, n, None):
+                    if isinstance(a_, (ast.FunctionDef, ast.AsyncFunctionDef)) and encl is None:
+                        encl = a_
+                ok_ = mn == '__init__' and encl is not None and encl is aw.get('__enter__')
+                n_mk += ok_
+                ctx.check('C12.W10', ok_, m_, n, f'`{U(n)[:50]}` in {mn}.{getattr(encl, "name", "<module>")} creates the temp file outside `with`: if anything raises before the block is entered, __exit__ never runs and '
+                          'the temp file stays behind (and entering the block afterwards creates a second one)', func=f'{mn}.{getattr(encl, "name", "<module>")}', text='make_tempfile called from __enter__')
+    if n_mk < 1:
+        raise AnalysisError('W10: AtomicWriter.__enter__ no longer calls make_tempfile(): anchor vanished')
+
 
 MUTANTS = [
+    {'id': 'exit_removes_created_folder', 'file': '__init__.py', 'find': "                try:\n                    self._temp_name.unlink()\n                except OSError:\n                    pass\n\n        return None  # Don't cancel the exception.", 'replace': "                try:\n                    self._temp_name.unlink()\n                    self.filename.parent.rmdir()\n                except OSError:\n                    pass\n\n        return None  # Don't cancel the exception.", 'expect': 'C12.W9', 'note': 'round 11'},
+    {'id': 'save_makes_tempfile_early', 'file': 'bsp.py', 'find': "        with AtomicWriter(filename or self.filename, is_bytes=True) as file:", 'replace': "        writer = AtomicWriter(filename or self.filename, is_bytes=True)\n        writer.make_tempfile()\n        game_lumps = list(self.game_lumps.values())\n        with writer as file:", 'expect': 'C12.W10', 'note': 'round 11'},
     {'id': 'save_returns_inside_the_with_block', 'file': 'bsp.py', 'find': "            if self.version is None:\n                raise ValueError('No version specified for BSP!')", 'replace': "            if self.version is None:\n                return", 'expect': 'C12.W8'},
     {'id': 'exit_closes_through_attribute', 'file': '__init__.py', 'find': "                temp, self.temp = self.temp, None\n                temp.__exit__(exc_type, exc_value, tback)", 'replace': "                self.temp.__exit__(exc_type, exc_value, tback)\n                self.temp = None", 'expect': 'C12.W3'},
     {'id': 'opened_name_not_recorded_after_collision', 'file': '__init__.py', 'find': "        for i in _itertools.count(start=1):\n            self._temp_name = self.filename.with_name(f'tmp_{i}')\n            try:\n                if self.is_bytes:  # type checkers can't narrow self from this!\n                    self.temp = self._temp_name.open('xb')  # type: ignore\n                else:\n                    self.temp = self._temp_name.open('xt', encoding=self.encoding)  # type: ignore\n                break\n            except FileExistsError:\n                pass\n", 'replace': "        self._temp_name = temp_name = self.filename.with_name('tmp_1')\n        for i in _itertools.count(start=2):\n            try:\n                if self.is_bytes:\n                    self.temp = temp_name.open('xb')  # type: ignore\n                else:\n                    self.temp = temp_name.open('xt', encoding=self.encoding)  # type: ignore\n                break\n            except FileExistsError:\n                temp_name = self.filename.with_name(f'tmp_{i}')\n", 'expect': 'C12.W4'},
